@@ -146,14 +146,20 @@ def run_c12(tier):
 
 
 def run_c17(tier):
-    return A('C17', ['fq4', 'fq12', 'fq12_inv', 'exponents'], tier) + Ld('C17', ['L-sop4'], tier)
+    # the two engines work on different artefacts (overlay binary / release IR): run them side by side so that the
+    # quick tier stays within minutes on a changed tree (L-sop4 alone is ~10 min of z3)
+    from concurrent.futures import ThreadPoolExecutor
+    with ThreadPoolExecutor(max_workers=1) as ex_:
+        fl = ex_.submit(Ld, 'C17', ['L-sop4'], tier)
+        a = A('C17', ['fq4', 'fq12', 'fq12_inv', 'exponents'], tier)
+        return a + fl.result()
 
 
 def run_c09(tier):
     # the subgroup test computes (r-1)P + P with the generic scalar multiplication and addition: its correctness on
     # EVERY twist point (also points of small order, where accumulator and base coincide or are opposite) is the
     # group law (C04 obligations) and the loop skeleton (C05), re-decided here
-    return A('C09', ['gabs_new', 'affine_new', 'consts', 'gabs_law'], tier) + skel('C09', tier, ('g2',)) + kani.decide('C09', sel(k_dec_specs(), ['k_dec_']), tier, timeout_s=1500, pool=6)
+    return A('C09', ['gabs_new', 'affine_new', 'consts', 'gabs_law'], tier) + skel('C09', tier, ('g2',)) + kani.decide('C09', sel(k_dec_specs(), ['k_dec_']), tier, timeout_s=1500 if tier == 'quick' else 3600, pool=6)
 
 
 def Ld(pid, names, tier):
